@@ -18,7 +18,7 @@ import (
 )
 
 const rule = "cases = (route set spread over GET/POST/PATCH/OPTIONS/custom FOO with per-route trailing-slash options, one of the four (method-not-allowed, auto-OPTIONS) combinations, " +
-	"request with any of those methods or an unknown one, incl. 'OPTIONS *'; a third of the cases after delete churn that also adds and removes routes of verbs PUT/DELETE/BAR); distinct by (route set, options, request); non-trivial when the request is unserved and at least one other method has a route for that host and path (directly or slash-adjusted)"
+	"request with any of those methods or an unknown one, incl. the target '*' with any method and the empty path of an absolute-form target; a third of the cases after delete churn that also adds and removes routes of verbs PUT/DELETE/BAR); distinct by (route set, options, request); non-trivial when the request is unserved and at least one other method has a route for that host and path (directly or slash-adjusted)"
 
 func main() {
 	run := kit.Start("C11", rule)
@@ -61,6 +61,20 @@ func main() {
 				c.Global = append(c.Global, "clonewith-mw")
 			}
 			c.Reqs = append(c.Reqs, route.Req{Method: "OPTIONS", Path: "*"})
+			// the target '*' with other methods, and the empty path of an absolute-form target without a path
+			// ("GET http://example.com HTTP/1.1"): no pattern matches either, whatever the method
+			for _, m := range []string{"GET", "POST", "FOO", "OPTIONS", "PATCH"} {
+				if r.IntN(2) == 0 {
+					c.Reqs = append(c.Reqs, route.Req{Method: m, Path: "*"})
+				}
+				if r.IntN(2) == 0 {
+					q := route.Req{Method: m, Path: ""}
+					if len(c.Reqs) > 0 {
+						q.Host = c.Reqs[r.IntN(len(c.Reqs))].Host
+					}
+					c.Reqs = append(c.Reqs, q)
+				}
+			}
 			var extra []route.Req
 			for _, q := range c.Reqs[:len(c.Reqs)/2] {
 				t := q
@@ -238,9 +252,6 @@ func check(run *kit.Run, c route.Case) {
 				wantAllow = others
 			default:
 				wantKind = "noroute"
-			}
-			if q.Path == "*" && !(q.Method == "OPTIONS" && optOptions) {
-				return
 			}
 			sort.Strings(wantAllow)
 			run.Case(id, len(others) > 0 || wantKind == "options")
